@@ -18,7 +18,7 @@ ID = 'C13'
 LEVEL = 'exploration'
 RUNS = {'quick': 16000, 'thorough': 300000}
 CHUNK = 40
-PROBES = ['process_of_thread_announced_in_stream', 'dump_cut_at_both_ends', 'class_filter_bsd', 'class_filter_non_bsd', 'bsd_subclass_filter', 'tid_filter', 'process_filter_name', 'process_filter_pid',
+PROBES = ['empty_thread_map', 'process_of_thread_announced_in_stream', 'dump_cut_at_both_ends', 'class_filter_bsd', 'class_filter_non_bsd', 'bsd_subclass_filter', 'tid_filter', 'process_filter_name', 'process_filter_pid',
           'helper_trace_class_hidden', 'helper_fs_class_hidden', 'helper_class_requested', 'repeat_request', 'callstacks_repeat',
           'kevents_after_traces', 'tuple_filter', 'images_announced_after_sample', 'combined_filters']
 RULE = ('one run = one long-lived PyKdebugParser and a history of 2..6 judged requests (traces, formatted_traces, callstacks, '
@@ -117,6 +117,8 @@ def generate(rng, index, tier):
             name = rng.ident(3, 9)
             d['threads'][0]['ops'].insert(0, worlds.op_newthread(rng, born['tid'], pid, name))
             d['born'] = [born['tid'], pid, name]
+        if d.get('born') and rng.chance(0.35):
+            d['writer']['tmap'] = []          # a dump without any thread map: everything is learned in-stream
         # a dump cut at both ends: orphan ENDs at the start, unfinished STARTs at the end, lost records
         if rng.chance(0.4):
             nrec = sum(len(x) for x in worlds.kernel.expand_threads(d['threads'], worlds.catalog()['ids']))
@@ -262,6 +264,8 @@ def execute(scn):
                     bump('probe:process_of_thread_announced_in_stream')
             if scn['dumps'][di].get('faults'):
                 bump('probe:dump_cut_at_both_ends')
+            if not scn['dumps'][di]['writer'].get('tmap'):
+                bump('probe:empty_thread_map')
             if sum(1 for k in ('tid', 'proc') if cur.get(k) is not None) + (1 if cls or sub else 0) >= 2:
                 bump('probe:combined_filters')
             if (cls or sub) and 7 not in cls and any(_first(t).eventid >> 24 == 7 for t, _s, _p in ref):
